@@ -15,6 +15,7 @@ import json
 import os
 import re
 import shutil
+import signal
 import sqlite3
 import tempfile
 
@@ -32,8 +33,16 @@ _SSE = re.compile(r"\Aid: (-?\d+)\ndata: (.*)\n\n\Z", re.S)
 _HEARTBEAT = ": heartbeat\n\n"
 
 
+WATCHDOG_REAL_SECONDS = 20.0  # a backend run normally takes < 0.2 s
+
+
 class _Abort(Exception):
     pass
+
+
+class _Watchdog(BaseException):
+    """Raised by SIGALRM inside whatever is executing: breaks loops that never return to the event loop
+    (e.g. format_stream's feeder draining a subscription that yields forever into its unbounded queue)."""
 
 
 class _Sub:
@@ -63,7 +72,7 @@ class _Sub:
 class C16(Prop):
     id = "C16"
     rule = (
-        "case = an operation sequence over runs r0/r1: app(run, kind) appends an envelope built from a real event (plain, internal, "
+        "case = 0-6 initial appends to r0 followed by an operation sequence over runs r0/r1: app(run, kind) appends an envelope built from a real event (plain, internal, "
         "StopEvent, StopEvent subclass, WorkflowFailedEvent, WorkflowCancelledEvent, WorkflowTimedOutEvent; appends after a terminal event "
         "are generated too); sub(run, cursor, credits) starts a consumer task over store.subscribe_events(run, after_sequence=k) with k "
         "absolute (-3..10) or relative to the current end (-4..+3, i.e. from before the start to beyond the end); req(...) starts a consumer "
@@ -93,7 +102,7 @@ class C16(Prop):
         "default_poll backend = a MemoryWorkflowStore subclass whose subscribe_events is the inherited AbstractWorkflowStore.subscribe_events",
     ]
     budgets = {"quick": 1500, "thorough": 4000}
-    wall = {"quick": 45.0, "thorough": 420.0}
+    wall = {"quick": 38.0, "thorough": 360.0}
 
     # ------------------------------------------------------------------ setup
 
@@ -174,9 +183,11 @@ class C16(Prop):
         n_ops = 28 if tier == "quick" else 40
         run = st.sampled_from([0, 0, 0, 1])
         kind = st.sampled_from(["ev"] * 18 + ["int"] * 4 + ["stop", "stop", "mystop", "failed", "cancelled", "timedout"])
+        rel = st.sampled_from([-4, -3, -2, -2, -1, -1, -1, 0, 0, 0, 0, 1, 2, 3])  # 0 = the last stored sequence
         cur = st.one_of(
-            st.tuples(st.just("rel"), st.integers(-4, 3)),
-            st.tuples(st.just("rel"), st.integers(-4, 3)),
+            st.tuples(st.just("rel"), rel),
+            st.tuples(st.just("rel"), rel),
+            st.tuples(st.just("rel"), rel),
             st.tuples(st.just("abs"), st.integers(-3, 10)),
         ).map(list)
         credits = st.sampled_from([0, 1, 1, 2, 3, 50, 50, 50])
@@ -239,11 +250,26 @@ class C16(Prop):
                     # attached to the WAL database, which spares a checkpoint (~2 ms) on each of their close() calls
                     hold = sqlite3.connect(path)
                     hold.execute("SELECT COUNT(*) FROM events").fetchall()
+            fired = []
+
+            def on_alarm(signum, frame):
+                fired.append(1)
+                raise _Watchdog()
+
+            old_handler = signal.signal(signal.SIGALRM, on_alarm)
+            signal.setitimer(signal.ITIMER_REAL, WATCHDOG_REAL_SECONDS)
             try:
                 _, quiescent = boot.run_virtual(self._history, case, backend, writer, reader, r, stats, obs)
             except boot.Runaway as e:
                 r.v("history_did_not_complete", backend=backend, how="runaway", detail=str(e)[:120])
                 quiescent = False
+            except _Watchdog:
+                quiescent = False
+            finally:
+                signal.setitimer(signal.ITIMER_REAL, 0)
+                signal.signal(signal.SIGALRM, old_handler)
+            if fired:
+                r.v("history_did_not_complete", backend=backend, how=f"a task did not return to the event loop for {WATCHDOG_REAL_SECONDS:.0f} s of real time")
             if quiescent:
                 r.v("history_did_not_complete", backend=backend, how="driver blocked forever in a store call")
         finally:
@@ -315,7 +341,7 @@ class C16(Prop):
                 "via": sub.via if sub.via == "store" else ("api_sse" if sub.sse else "api_ndjson"),
                 "cursor": cls,
                 "cursor_beyond_end": sub.k >= n0,
-                "cursor_after_terminal": any(is_term(sub.run, i) for i in range(0, min(sub.k + 1, len(model[sub.run])))),
+                "cursor_after_terminal": any(is_term(sub.run, i) for i in range(0, min(sub.k + 1, n0))),  # as of subscription time
             }
 
         def check_sub(sub, where):
@@ -332,6 +358,15 @@ class C16(Prop):
                 return rep("subscription_raised", error=sub.error[:160])
             seen = set()
             for i, (seq, dump) in enumerate(sub.got):
+                if seq is None:
+                    # NDJSON frames carry no id: identify the event by its (unique) payload so that the diagnosis is the
+                    # same as for the other transports
+                    for j in range(len(model[sub.run])):
+                        if want_record(sub, j) == dump:
+                            seq = j
+                            break
+                    else:
+                        return rep("ndjson_payload_matches_no_appended_event", position=i)
                 if seq is not None and seq <= sub.k:
                     return rep("yielded_event_not_above_cursor", seq=seq)
                 if seq is not None and seq in seen:
@@ -418,7 +453,7 @@ class C16(Prop):
             subs.append(sub)
             return sub
 
-        async def start_api_sub(rn, params, credits, header_value=None):
+        async def start_api_sub(rn, params, credits):
             """params: resolved request parameters {"after": int|"now"|None, "leid": int|None, sse, internal, qualname}."""
             sub = _Sub(len(subs), rn, "api", credits)
             sub.sse, sub.internal, sub.qualname = bool(params["sse"]), bool(params["internal"]), bool(params["qualname"])
@@ -485,7 +520,7 @@ class C16(Prop):
 
         async def settle(where):
             await asyncio.sleep(settle_s)
-            for _ in range(10):
+            for _ in range(30):  # let everything that became ready at this very instant run to its next wait
                 await asyncio.sleep(0)
             snap = []
             for sub in subs:
@@ -569,10 +604,12 @@ class C16(Prop):
                         viol("query_events_wrong_result", run=rn, after=after, limit=limit, got=seqs[:16], want=want[:16])
             await settle("end")
             obs["final"] = {rn: await check_log(rn, "end") for rn in runs}
-            # every open subscription gets unlimited credit: the complete remainder must arrive
+            # every open subscription gets enough credit: the complete remainder must arrive
             for sub in subs:
                 if not sub.closed and sub.rejected is None:
-                    sub.credits += 1_000_000
+                    # enough for everything that can legitimately arrive plus the end-of-stream request, but bounded
+                    # (a subscription that yields forever must stop at a yield, not fill the memory)
+                    sub.credits = max(sub.credits, len(sub.got) + len(model[sub.run]) + 2)
                     sub.gate.set()
             await settle("drain")
             for sub in subs:
